@@ -157,6 +157,30 @@ def finish_params(case):
       j = int(u[2] * (len(imp) - 1))
       lo = (imp[j] + imp[j + 1]) / 2 / par['iroas']
       par['budget_range'] = (lo, lo * (20 + 200 * u[3]))
+    elif imp and mode in ('pair-median-lo', 'pair-median-hi'):
+      # a bound at the median required budget of all (treatment, control) pairs over the analysis window
+      from matched_markets.methodology import tbrmmdiagnostics as D
+      budgets = []
+      try:
+        mm.geo_assignments
+        n = len(mm.data.geo_index)
+        for tm in range(1, 1 << n):
+          for cm in range(1, 1 << n):
+            if tm & cm:
+              continue
+            try:
+              d = D.TBRMMDiagnostics(mm.data.aggregate_time_series(set(members(tm, n))), p0)
+              d.x = mm.data.aggregate_time_series(set(members(cm, n)))
+              b = float(d.required_impact) / par['iroas']
+              if b == b and 0 < b < float('inf'):
+                budgets.append(b)
+            except Exception:
+              pass
+      except Exception:
+        pass
+      if budgets:
+        med = sorted(budgets)[len(budgets) // 2]
+        par['budget_range'] = (med, med * 1000.0) if mode == 'pair-median-lo' else (med * 1e-3, med)
     elif imp and mode == 'hi-bites' and len(imp) >= 2:
       j = int(u[2] * (len(imp) - 1))
       hi = (imp[j] + imp[j + 1]) / 2 / par['iroas'] * (1.0 + u[3])
